@@ -365,6 +365,34 @@ def named_cases():
         "payload) decodes to the same octets with go-jose's lenient decoder, but is not the canonical serialisation: "
         "no credential of the jwt kind (argument error, fix 6547ea1) — it is passed on like an opaque token, here to "
         "the introspection authenticator, which rejects it finally")
+    # 25-27: found, well-formed, verified by its issuer — and rejected while the claims are decoded
+    und = sorted(gen_authn.UNDECODABLE_JWTS)
+    res["25_jwt_claims_that_cannot_be_decoded_are_a_rejection"] = gen_authn.assemble(
+        [mk("jwt", 0, None), anon], [{"ref": "a0"}, {"ref": "a9"}],
+        [rq([("Authorization", "Bearer @Jexpms@")]), rq(query=[("access_token", "@Jnbfmin@")]),
+         rq(body=gen_authn.render_body("form", [("access_token", ["@Jiathuge@"])]))]
+        + [rq([("Authorization", "Bearer " + t)]) for t in und + sorted(gen_authn.ODD_BUT_VALID_JWTS)] + [rq()],
+        "JWTs signed by the trusted issuer whose exp / nbf / iat lie outside of the years 1..9999 (an expiry given in "
+        "microseconds, 1e300, the zero time), are no numbers, or whose aud / scp / scope / iss / sub / jti have a wrong "
+        "JSON type: the token was found, parsed and its signature verified, the claims cannot be decoded — a rejection "
+        "(authentication error caused by a configuration error of the claim type resp. an error of the JSON library, "
+        "never an argument error), final without allow_fallback_on_error although anonymous follows. Odd but valid "
+        "spellings (exp 4.0e9, exp null, aud \"api web\") are accepted (caught seed s3eval/C04-a)")
+    opq = [k for k, v in gen_authn.INTRO.items() if "rawclaims" in v and not k.startswith("J")]
+    res["26_introspection_responses_that_cannot_be_decoded_are_a_rejection"] = gen_authn.assemble(
+        [mk("oauth2_introspection", 3, None), anon], [{"ref": "a3"}, {"ref": "a9"}],
+        [rq([("X-Token", "Bearer " + t)]) for t in opq] + [rq(query=[("token", "@Jexpms@")]), rq()],
+        "active tokens whose introspection response carries an exp / nbf / iat out of range or of a wrong type, an "
+        "aud / scope / active / sub of a wrong JSON type: the token was found and the authorization server knows it, "
+        "the response cannot be decoded — an internal error (caused by a configuration error of the claim type), final "
+        "although anonymous follows (caught seed s3eval/C04-a)", cache=True)
+    ses = [k for k, v in gen_authn.IDENT.items() if "rawclaims" in v]
+    res["27_session_lifespan_that_cannot_be_read_is_a_rejection"] = gen_authn.assemble(
+        [mk("generic", 4, None), anon], [{"ref": "a4"}, {"ref": "a9"}],
+        [rq(cookies=[("sess", t)]) for t in ses + ["sess-badexp"]] + [rq()],
+        "sessions whose not_after is 1e300 / an object / a word: found, known to the identity endpoint, the lifespan "
+        "cannot be read — an internal error, final although anonymous follows; an expiry in microseconds is an integer "
+        "(a date in the far future): accepted")
     # 23: YAML bodies
     res["23_yaml_body"] = gen_authn.assemble(
         [mk("jwt", 0, False), anon], [{"ref": "a0"}, {"ref": "a9"}],
@@ -485,7 +513,7 @@ def run_checks(R):
         "small_scope": ("all chains of pairwise different authenticator types of length <= "
                         + ("2" if quick else "3") + " x fallback settings of each member (left out / false / true in the "
                         "definition; and inverted by the rule's step) x the combinations of the credential states "
-                        "(none / foreign scheme / malformed / invalid / expired / valid) of their members — except "
+                        "(none / foreign scheme / malformed / invalid / expired / undecodable claims / valid) of their members — except "
                         "combinations that would need two different values of one header line (basic_auth and jwt both "
                         "read Authorization: only one of them carries a credential per request)"),
         "config_reject_cases": len(rejected),
@@ -518,6 +546,12 @@ def run_checks(R):
         "compares the request views of the three entry points",
         "time: credentials expire at least one hour before / after the run, no boundary of the 10 s leeway is "
         "approached",
+        "claims that cannot be decoded (dates outside of the years 1..9999 or no numbers, aud / scp / scope / iss / sub "
+        "of a wrong JSON type, in properly signed JWTs and in introspection responses of active tokens; session "
+        "lifespans that are no integers): which run-time error the decoder hands to the authenticator is a parameter "
+        "of the model (the cause of the verdict), fixed by the generator by construction (claim types of heimdall: "
+        "configuration error, JSON library: foreign) and compared with the real go-jose / go-json / gjson path on "
+        "every run; the theorems cover every cause that contains no argument error (World.wf)",
     ]
 
     # ---- verdicts
